@@ -82,6 +82,33 @@ def weierstrass (ak : List Rat) (cs : Nat → Rat → Rat) (x : Vec) : Rat :=
   sum (x.map fun xi => sum (ak.mapIdx fun k a => a * cs k (xi + 1 / 2)))
     - (x.length : Rat) * sum (ak.mapIdx fun k a => a * cs k (1 / 2))
 
+/-- Ackley: `-a·E(-b·R(Σx²/D)) - E(Σ cs x_i / D) + a + E 1` with `E` standing for exp, `R` for sqrt,
+    `cs z` for `cos(2πz)` -/
+def ackley (E R : Rat → Rat) (cs : Rat → Rat) (a b : Rat) (x : Vec) : Rat :=
+  let D : Rat := (x.length : Rat)
+  a + E 1 - a * E (- b * R (sum (x.map fun z => z * z) / D)) - E (sum (x.map cs) / D)
+
+/-- expanded Scaffer F6 on one pair: `0.5 + (sn² - 0.5) / (1 + 0.001 s)²` with `s = x² + y²` and
+    `sn2` standing for `sin²(√s)` -/
+def scafferPair (sn2 : Rat → Rat) (x y : Rat) : Rat :=
+  let s := x * x + y * y
+  1 / 2 + (sn2 s - 1 / 2) / ((1 + s / 1000) * (1 + s / 1000))
+
+/-- the cyclic pairing `(x1,x2), (x2,x3), …, (xD,x1)` -/
+def cyclicPairs (x : Vec) : List (Rat × Rat) := x.zip (x.drop 1 ++ x.take 1)
+
+def scaffer (sn2 : Rat → Rat) (x : Vec) : Rat := sum ((cyclicPairs x).map fun p => scafferPair sn2 p.1 p.2)
+
+/-- Schwefel 2.6: `max_i |A_i x - A_i o|` given the rows' values `ax i = A_i·x`, `ao i = A_i·o` -/
+def absR (q : Rat) : Rat := if q < 0 then -q else q
+def schwefel26 (ax ao : Vec) : Rat := (List.zipWith (fun p q => absR (p - q)) ax ao).foldl max 0
+
+/-- Schwefel 2.13: `Σ_i (A_i - B_i(x))²` -/
+def schwefel213 (A B : Vec) : Rat := sum (List.zipWith (fun p q => (p - q) * (p - q)) A B)
+
+/-- F8F2: Griewank of Rosenbrock on the cyclic pairs (one-dimensional Griewank `g`) -/
+def f8f2 (g : Rat → Rat) (x : Vec) : Rat := sum ((cyclicPairs x).map fun p => g (rosenbrock [p.1, p.2]))
+
 /-- shifted problem: `f(x - o) + bias` -/
 def vsub (x o : Vec) : Vec := List.zipWith (· - ·) x o
 def shifted (f : Vec → Rat) (o : Vec) (bias : Rat) (x : Vec) : Rat := f (vsub x o) + bias
